@@ -101,7 +101,7 @@ func RunNarrow(c *core.Ctx, in *Instance, timeout time.Duration, coverage bool, 
 			nd.WriteByte('\n')
 		}
 		extra["progs.ndjson"] = nd.Bytes()
-		mc.WriteString("ProgSeq == ndJsonDeserialize(\"progs.ndjson\")\nMCPrograms == {ProgSeq[i] : i \\in DOMAIN ProgSeq}\n")
+		mc.WriteString("MCPrograms == LET ps == ndJsonDeserialize(\"progs.ndjson\") IN {ps[i] : i \\in DOMAIN ps}\n")
 	} else {
 		fmt.Fprintf(&mc, "MCPrograms == Family(%d, %d, %d)\n", in.N, in.M, in.L)
 	}
@@ -134,4 +134,54 @@ func RunNarrow(c *core.Ctx, in *Instance, timeout time.Duration, coverage bool, 
 		return nil, perr
 	}
 	return res, nil
+}
+
+// RandomPrograms draws n distinct programs (seeded) from the grammar of Narrow.tla with blocks of up
+// to two statements at the top level, in bodies and in nested bodies, handlers of up to one simple
+// statement.
+func RandomPrograms(c *core.Ctx, decl []string, n int) []Prog {
+	r := c.Rand
+	val := func() string { return decl[r.Intn(len(decl))] }
+	simple := func() Stmt {
+		op := "set"
+		if r.Intn(2) == 0 {
+			op = "call"
+		}
+		return Stmt{Op: op, V: val(), B: []Stmt{}, H: []Stmt{}}
+	}
+	ops := []string{"if", "unless", "eqnil", "while", "loop", "late", "try", "fin"}
+	var block func(depth, max int) []Stmt
+	block = func(depth, max int) []Stmt {
+		k := r.Intn(max + 1)
+		out := []Stmt{}
+		for i := 0; i < k; i++ {
+			if depth >= 2 || r.Intn(3) == 0 {
+				out = append(out, simple())
+				continue
+			}
+			s := Stmt{Op: ops[r.Intn(len(ops))], V: "nil", B: block(depth+1, 2), H: []Stmt{}}
+			if s.Op == "try" || s.Op == "fin" {
+				if r.Intn(2) == 0 {
+					s.H = []Stmt{simple()}
+				}
+			}
+			out = append(out, s)
+		}
+		return out
+	}
+	seen := map[string]bool{}
+	var progs []Prog
+	for tries := 0; len(progs) < n && tries < n*20; tries++ {
+		p := Prog{Init: val(), Body: block(0, 2)}
+		if len(p.Body) == 0 {
+			continue
+		}
+		k := p.Key()
+		if seen[k] {
+			continue
+		}
+		seen[k] = true
+		progs = append(progs, p)
+	}
+	return progs
 }
